@@ -91,6 +91,57 @@ func execSortCase(c sortCase, _ core.Source) (res core.Result) {
 			}
 		}
 	}
+	// the same sorter instance is used again: for a shorter array (the array it sorted before is the caller's
+	// and must stay as it is), and for the first array once more after it has been put out of order
+	if len(in) >= 2 {
+		snapshot := append([]tagged{}, ref...)
+		shorter := append([]tagged{}, in[:len(in)/2+1]...)
+		for a, b := 0, len(shorter)-1; a < b; a, b = a+1, b-1 {
+			shorter[a], shorter[b] = shorter[b], shorter[a]
+		}
+		shorterIn := append([]tagged{}, shorter...)
+		again := append([]tagged{}, ref...)
+		for a, b := 0, len(again)-1; a < b; a, b = a+1, b-1 {
+			again[a], again[b] = again[b], again[a]
+		}
+		if p, payload := lib.Call(func() { sorter.SortValues(shorter); sorter.SortValues(again) }); p {
+			res.Violation = core.Violate("C09/sorter-reuse/panicked", "sorting a second array with the same sorter panicked: %s", lib.Short(payload))
+			return
+		}
+		if fmt.Sprint(ref) != fmt.Sprint(snapshot) {
+			res.Violation = core.Violate("C09/sorter-reuse/earlier-result-changed", "sorting another array with the same sorter (ranker %s) changed the array it had sorted before: %v -> %v", c.Ranker, snapshot, ref)
+			return
+		}
+		count := map[tagged]int{}
+		for _, x := range shorterIn {
+			count[x]++
+		}
+		for _, x := range shorter {
+			count[x]--
+		}
+		for _, x := range again {
+			count[x]++
+		}
+		for _, x := range in {
+			count[x]--
+		}
+		for x, d := range count {
+			if d != 0 {
+				res.Violation = core.Violate("C09/sorter-reuse/not-a-permutation", "the second or third sort with the same sorter (ranker %s) lost, duplicated or altered %v: %v -> %v and %v -> %v", c.Ranker, x, shorterIn, shorter, in, again)
+				return
+			}
+		}
+		if consistent {
+			for _, arr := range [][]tagged{shorter, again} {
+				for i := 0; i+1 < len(arr); i++ {
+					if rank(arr[i], arr[i+1]) == age.GreaterRank {
+						res.Violation = core.Violate("C09/sorter-reuse/not-ascending", "a later sort with the same sorter (ranker %s) left %v before %v in %v", c.Ranker, arr[i], arr[i+1], arr)
+						return
+					}
+				}
+			}
+		}
+	}
 	// the collection methods must have the same effect as the sorter on the equivalent Go array
 	var got []tagged
 	switch c.Via {
